@@ -24,8 +24,9 @@ RULE = (
 ASSUMPTIONS = [
     "non-destructive: final pixel frames of both partitions agree to 1e-9 relative (absolute floor 1e-12)",
     "destructive: for intervals scaled by k (same start) every frame is k times the corresponding frame, to 1e-9 relative",
+    "in about 40 % of the non-destructive scenarios the two partitions are also the two values of a swept 'observation.readout.times' of one sequentially executed non-destructive observation; each run's final pixel frame must equal the exposure's",
 ]
-COMPONENTS = {"real": ["pyxel exposure/readout", "illumination, stripe_pattern, load_image, load_charge, dark_current, simple_conversion, simple_collection", "scratch filesystem for input files"], "stub": []}
+COMPONENTS = {"real": ["pyxel exposure/readout", "sequentially executed observation with swept readout times", "illumination, stripe_pattern, load_image, load_charge, dark_current, simple_conversion, simple_collection", "scratch filesystem for input files"], "stub": []}
 BUDGET = {"quick": {"n": 480, "wall": 100, "determinism": 4}, "thorough": {"n": 80000, "wall": 1500, "determinism": 12}}
 REQUIRED_REACH = ["type:CCD", "type:CMOS", "type:MKID", "type:APD", "mode:nd", "mode:destructive", "model:illumination", "model:stripe_pattern", "model:load_image", "model:load_charge", "model:dark_current", "partition:short-first", "partition:long-last", "partition:uniform", "partition:random", "partitions_as_swept_readout_times", "nonzero_start", "twelve_readouts"]
 
